@@ -597,12 +597,14 @@ func (m *NodeManager) synchronizeBlocks(ctx context.Context, interrupt <-chan in
 		for !blockDone {
 			select {
 			case <-time.After(time.Second * 10):
+				// When the most work chain is now shorter than this height there is no header at
+				// the height and the block is orphaned as well.
 				heightHash, err := m.headers.Hash(ctx, height)
-				if err != nil {
+				if err != nil && height <= m.headers.Height() {
 					return errors.Wrap(err, "header hash")
 				}
 
-				if !heightHash.Equal(&hash) {
+				if err != nil || !heightHash.Equal(&hash) {
 					logger.WarnWithFields(ctx, []logger.Field{
 						logger.Stringer("block_hash", hash),
 						logger.Int("block_height", height),
